@@ -46,7 +46,9 @@ ResNames(s) == IF s = "relay" THEN {"conn", "cli", "loc"} ELSE {"conn"}
 AllNames == {"conn", "cli", "loc"}
 \* "filtered": the socket is opened, then the candidate is refused before it is ever handed to addCandidate (every external address
 \* of the srflx-mapped gatherer is one that must not be published) - the gatherer still owns the socket and must close it
-FaultOK(s, f) == f \in {"none", "listen-error"} \/ (f = "dup" /\ s \in {"host-udp", "host-tcpmux", "srflx-own", "srflx-mux", "relay"})
+\* "dup" on host-udpmux: two listen addresses of the mux map to one host configuration; the gatherer notices before it takes a
+\* second reference from the mux, so nothing is acquired for the duplicate (no companion: the scenario equals "none" for a correct tree)
+FaultOK(s, f) == f \in {"none", "listen-error"} \/ (f = "dup" /\ s \in {"host-udp", "host-udpmux", "host-tcpmux", "srflx-own", "srflx-mux", "relay"})
                  \/ (f = "filtered" /\ s = "srflx-mapped")
 
 C == 1..MaxCycles
@@ -97,7 +99,7 @@ Start(c) ==
             /\ narr' = narr + 1 /\ aid' = [aid EXCEPT ![c] = narr + 1]
             /\ pc' = [pc EXCEPT ![c] = IF HasGate(site) THEN "gate" ELSE "flight"]
             \* duplicate scenarios: an equal candidate of the same cycle is gathered first (second interface, second URL)
-            /\ IF fault = "dup" THEN comp' = [comp EXCEPT ![c] = "owned"] /\ npub' = npub + 1
+            /\ IF fault = "dup" /\ site # "host-udpmux" THEN comp' = [comp EXCEPT ![c] = "owned"] /\ npub' = npub + 1
                                 ELSE UNCHANGED <<comp, npub>>
   /\ UNCH_CYC /\ UNCH_ENV /\ UNCHANGED <<res, own, wf, nils, nilg, pubmix>>
 
@@ -152,7 +154,11 @@ Handoff(c) ==
 Reject(c) ==
   /\ pc[c] = "reject"
   /\ res' = [res EXCEPT ![c] = IF site = "srflx-own" THEN (IF "srflxNoCloseOnReject" \in Defects THEN res[c] ELSE ClsS(res[c]))
-                                ELSE Cls(c, ResNames(site))]
+                                ELSE IF site = "host-udpmux" /\ fault = "dup"
+                                  \* the configuration was not recorded (its candidate was refused), so the second listen address that maps to
+                                  \* it is tried as well: one more reference is taken from the mux, refused and given back
+                                  THEN [Cls(c, ResNames(site)) EXCEPT !["loc"] = [o |-> TRUE, cl |-> 1, rm |-> FALSE, ug |-> gen]]
+                                  ELSE Cls(c, ResNames(site))]
   /\ pc' = [pc EXCEPT ![c] = "finish"]
   /\ UNCH_CYC /\ UNCH_ENV /\ UNCHANGED <<gs, aid, narr, own, comp, wf, nils, nilg, npub, pubmix>>
 \* setGatheringState(Complete): dropped for a dead cycle, otherwise enqueues the nil candidate once
